@@ -32,6 +32,8 @@ from fcp.specs.v2 import FcpV2
 from fcp.error import FcpError, error
 from fcp.types import Nil
 
+from fcp.encoding import make_encoder, PackedEncoderContext
+
 from .can_c_writer import CanCWriter
 
 
@@ -108,8 +110,20 @@ class Generator(CodeGenerator):
             self: Any, fcp: FcpV2, extension: Any
         ) -> Result[Nil, FcpError]:
             """Check if extension has a valid type."""
-            struct = fcp.get_struct(extension.type)
-            size = sum([field.type.get_length() for field in struct.unwrap().fields])
+            if extension.protocol != "can" or fcp.get_struct(extension.type).is_nothing():
+                return Ok(())
+
+            try:
+                encoding = make_encoder(
+                    "packed", fcp, PackedEncoderContext().with_unroll_arrays(True)
+                ).generate(extension)
+            except ValueError as e:
+                return error(
+                    f"Impl {extension.name} does not fit a CAN frame: {e}",
+                    node=extension,
+                )
+
+            size = encoding[-1].bitstart + encoding[-1].bitlength
             if size > 64:
                 return error(
                     f"Impl {extension.name} is way too big at {size} bits",
